@@ -1,0 +1,42 @@
+//go:build verif
+
+// Contracts for package cli, checked by /verif/govc. Comment-only: no code.
+package cli
+
+// Ending the process: after the engine's result arrived, pandora exits only after waiting for the engine's tasks (the aggregators
+// flush and close the result output in them). Exits forced by the interrupt timeout, a second signal or an unknown signal are
+// the documented escape hatches.
+//@ func awaitPandoraTermination
+//@ props C06 C05
+//@ nilsafe
+//@ requires pandora != nil && log != nil && errs != nil && gracefulShutdown != nil
+//@ at call log.Fatal#3 assert [interrupted-run-waits-for-its-tasks-before-exit] calls(pandora.Wait) == 1 && calls(gracefulShutdown) == 1
+//@ at call log.Fatal#4 assert [failed-run-waits-for-its-tasks-before-exit] calls(pandora.Wait) == 1 && calls(gracefulShutdown) == 1
+//@ ensures [returns-only-after-a-successful-run] result_of(<-errs, 0) == nil && calls(gracefulShutdown) == 0
+
+//@ func runEngine
+//@ props C05 C06
+//@ nilsafe
+//@ requires engine != nil && errs != nil
+//@ at send errs assert [the-run-outcome-is-handed-over] value == result_of(engine.Run, 0)
+
+// Reading the configuration: every pool that does not say otherwise gets discard_overflow: true; a missing or malformed
+// pools list is left to decoding and validation (an error, not a fault).
+//@ func newViper
+//@ props C17
+//@ nilsafe
+//@ ensures result != nil
+
+// (the only panic left is the one raised when the bootstrap logger cannot be built)
+//@ func readConfig
+//@ props C13 C17
+//@ nilsafe
+//@ may_panic true
+//@ loop 0 step [discard-overflow-is-on-unless-configured] imp(ok, has(poolMap, "discard_overflow"))
+//@ at call config.DecodeAndValidate assert [decoded-into-the-defaults] arg(a1) == box(result_of(DefaultConfig, 0))
+//@ ensures [decode-errors-end-the-process] result_of(config.DecodeAndValidate, 0) == nil
+
+//@ func DefaultConfig
+//@ props C17
+//@ modifies nothing
+//@ ensures result != nil && fresh(result)
